@@ -8,7 +8,7 @@ bodies) and reports each instance as an obligation that is discharged or a viola
 file:line. Exit 0 = every obligation discharged (known findings are printed), 1 = VIOLATION,
 2 = UNDECIDED (anchor missing, floor not met, analyser error)."""
 import argparse
-import ast
+import ast, re
 import copy
 import hashlib
 import json
@@ -1295,6 +1295,74 @@ def run_rules(m, r):
             r.check(not opt_out, "R20.11", "RouteEntry", f"field {st.target.id} takes part in the comparison of routes", m.pos(st), "compared",
                     f"{st.target.id} is left out of RouteEntry's equality: two different routes that differ only in it (10.0.0.0/8 and 10.0.0.0/16 through one next hop) count as one — the second is never queued, and deleting one drops the other from the waiting list")
     r.floor("R20.11 fields of RouteEntry", len(fields_seen), 4)
+
+    # ------------------------------------------------------------------ R20.12
+    # a route that waits for its next hop is recorded whatever happens to the probe: nothing that can leave
+    # _probe_addr (a return in an earlier statement, an exception handler of a try the append sits in or
+    # follows) comes before the append
+    app = None
+    for n in ast.walk(probe):
+        if isinstance(n, ast.Call) and isinstance(n.func, ast.Attribute) and n.func.attr in ("append", "add") and n.args and ast.unparse(n.args[0]) == "route_entry":
+            app = n
+    if app is not None:
+        top = app
+        while getattr(top, "_parent", None) is not probe and getattr(top, "_parent", None) is not None:
+            top = top._parent
+        early = None
+        for st in probe.body:
+            if st is top:
+                break
+            for x in ast.walk(st):
+                if isinstance(x, (ast.Return, ast.Raise)):
+                    iff = enclosing(x, ast.If)
+                    t = ast.unparse(iff.test) if iff is not None else ""
+                    if iff is not None and "route_entry" in t and " in " in t:
+                        continue  # "already waiting" guard
+                    early = x
+        in_try = enclosing(app, ast.Try)
+        r.check(early is None and in_try is None, "R20.12", fn(probe), "the waiting route is recorded before anything that can leave _probe_addr", m.pos(early or in_try or app), "append first",
+                "_probe_addr can return (or swallow an exception) before the route is appended to the next hop's waiting list: the next hop is in the pending cache, the route is not — when the neighbour resolves the route is never installed")
+    # ------------------------------------------------------------------ R20.13
+    # every IPv4 prefix length 0..32 is a route the kernel can have: no guard of the message parser rejects one
+    parse = m.method(RC, "_parse_route_entry_msg", "R20.13")
+    KEYLEN = "KEY_DESTINATION_PREFIX_LENGTH"
+    env_pl = single_assignments(parse)
+    len_names = {k for k, v in env_pl.items() if KEYLEN in ast.unparse(v)}
+    n_guard = 0
+    for n in ast.walk(parse):
+        if not isinstance(n, ast.If):
+            continue
+        for test, body in ((n.test, n.body), (ast.UnaryOp(op=ast.Not(), operand=n.test), n.orelse)):
+            if not body or not any(isinstance(x, (ast.Return, ast.Raise, ast.Continue)) for st in body for x in ast.walk(st)):
+                continue
+            src = ast.unparse(test)
+            if KEYLEN not in src and not any(re.search(r"\b%s\b" % re.escape(k), src) for k in len_names):
+                continue
+            # substitute the prefix length by a variable and evaluate for every legal length
+            class _Sub(ast.NodeTransformer):
+                def visit_Subscript(self, node):
+                    return ast.Name(id="__plen", ctx=ast.Load()) if KEYLEN in ast.unparse(node) else self.generic_visit(node)
+                def visit_Call(self, node):
+                    return ast.Name(id="__plen", ctx=ast.Load()) if (KEYLEN in ast.unparse(node) and isinstance(node.func, ast.Attribute) and node.func.attr == "get") else self.generic_visit(node)
+                def visit_Name(self, node):
+                    return ast.Name(id="__plen", ctx=ast.Load()) if node.id in len_names else node
+            expr = ast.fix_missing_locations(ast.Expression(_Sub().visit(ast.parse(src, mode="eval").body)))
+            free = {x.id for x in ast.walk(expr) if isinstance(x, ast.Name)} - {"__plen", "range", "int", "len", "None", "True", "False"}
+            if free:
+                continue
+            n_guard += 1
+            rejected = []
+            try:
+                code = compile(expr, "<guard>", "eval")
+                for v in range(0, 33):
+                    if eval(code, {"__builtins__": {}}, {"__plen": v, "range": range, "int": int}):
+                        rejected.append(v)
+            except Exception as e:  # a guard the rule cannot evaluate
+                undecided("R20.13", f"guard `{src}` could not be evaluated: {e}")
+            r.check(not rejected, "R20.13", fn(parse), "no legal prefix length is refused", m.pos(n), f"`{src}` is false for 0..32",
+                    f"`{src}` refuses prefix length(s) {rejected}: such a route (a /32 host route) is never installed or queued, and its deletion is ignored — if it is the last route through a next hop, the Update module goes while the kernel still routes through it")
+    if n_guard == 0:
+        r.ok("R20.13", fn(parse), "no legal prefix length is refused", m.pos(parse), "the parser has no guard on the prefix length")
 
     # ------------------------------------------------------------------ R20.8
     for f in (add_new, add_unres):
